@@ -3,7 +3,7 @@
 EXTENDS WebSSO, Json
 CONSTANT Depth
 VARIABLE hist
-svars == <<nextReq, outstanding, atIdp, wire, epoch, sessions, consumed, last, hist>>
+svars == <<nextReq, outstanding, atIdp, wire, epoch, sessions, entries, consumed, last, hist>>
 Proj == [outstanding |-> outstanding, sessions |-> sessions, op |-> last]
 SimInit == Init /\ hist = <<>>
 Step == /\ Len(hist) < Depth /\ Next /\ hist' = Append(hist, Proj')
